@@ -100,7 +100,8 @@ def chanFor (pre post : World) (ad : Addr) (sid : Sid) (f : String) : String :=
       else if ad.op = "sub" ∧ code = "200" then isRd post
       else ad.viaChn                                       -- everything else echoes the spelling of the request
     else sessChn || userChn                                -- broadcast: a reader's session, or a session of a user cached as a reader
-  let blank := kind = "data" ∧ (if ad.op = "get" ∧ mine then ad.viaChn else sessChn)
+  -- the author is withheld from a channel reader: in the history whichever spelling asks for it, in a broadcast by session
+  let blank := kind = "data" ∧ (if ad.op = "get" ∧ mine then (ad.viaChn || isRd pre) else sessChn)
   let ws := if useChn then ws.set idx ("chn:" ++ tn) else ws
   let ws := if blank then ws.map (fun w => if w.startsWith "from=" then "from=-" else w) else ws
   " ".intercalate ws
@@ -204,12 +205,18 @@ def step (st : WSt) (ws : List String) : Option (WSt × String) :=
             else some (c0.opSetSub a t (kvGet m "user") (optStr (kvGet m "mode")))
           | "setdesc", t :: _ =>
             let o : SetDescOpts := { auth := optStr (kvGet m "auth"), anon := optStr (kvGet m "anon"), pub := privArg (kvGet m "pub"), priv := privArg (kvGet m "priv") }
-            if isUser t then some (c0.opSetDescP2P a t o) else some (c0.opSetDesc a t o)
+            if isUser t then some (c0.opSetDescP2P a t o)
+            else if isChanT then some (c0.opSetDescC a t viaChn o)
+            else some (c0.opSetDesc a t o)
           | "delmsg", t :: rs :: _ =>
             let tn := if isUser t then p2pKey a.uid t else t
             if isUser t ∧ t = a.uid then some (c0.emit a.sid (ctrl 403 tn)) else
+            if isChanT then some (c0.opDelMsgC a tn viaChn (parseRangesArg rs) (kvGet m "hard" = "1")) else
             some (c0.opDelMsg a tn (parseRangesArg rs) (kvGet m "hard" = "1"))
-          | "delsub", t :: u :: _ => if isUser t then some (c0.opDelSubP2P a t) else some (c0.opDelSub a t u)
+          | "delsub", t :: u :: _ =>
+            if isUser t then some (c0.opDelSubP2P a t)
+            else if isChanT then some (c0.opDelSubC a t viaChn u)
+            else some (c0.opDelSub a t u)
           | "deltopic", t :: _ =>
             if isUser t then some (c0.opDelTopicP2P a t (kvGet m "hard" = "1"))
             else if isChanT then some (c0.opDelTopicC a t viaChn (kvGet m "hard" = "1"))
